@@ -77,8 +77,14 @@ def rrule(r):
             ms.append((kd, r.choice(ops)))
     if r.random() < 0.3:
         ms.insert(r.randrange(len(ms) + 1), ("caseInsensitive", r.random() < 0.7))
+    if r.random() < 0.06:
+        # member names in another case: not the option / not a matcher as far as the rule grammar goes
+        ms.insert(r.randrange(len(ms) + 1), (r.choice(["CASEINSENSITIVE", "CaseInsensitive", "caseinsensitive", "Equals", "STARTSWITH", "containsallof"]),
+                                              r.choice([True, False, "a", ["a"]])))
     if r.random() < 0.05:
-        ms.append(r.choice([("nosuch", "a"), ("equals", 5), ("containsAllOf", []), ("containsAllOf", "a"), ("caseInsensitive", True)]))
+        ms.append(r.choice([("nosuch", "a"), ("equals", 5), ("containsAllOf", []), ("containsAllOf", "a"), ("caseInsensitive", True),
+                            ("containsAllOf", ["a", None]), ("containsAllOf", ["a", "b", 1]), ("containsAllOf", [True, "a"]),
+                            ("containsAllOf", ["a", "/", "b", obj(a=1)])]))
     return obj(*ms)
 
 
